@@ -3,6 +3,7 @@ package main
 import (
 	"fmt"
 	"go/token"
+	"go/types"
 	"sort"
 	"strings"
 
@@ -422,6 +423,37 @@ func lengthAccounting(p *Prog, r *Report, rule string) {
 		}
 		r.Check(okEnc, rule, fnKey(f)+": every element is encoded", p.pos(f.Pos()), "each iteration passes encodeInfoElementValueToBuff(element, ...) for the loop's element",
 			"an element can be skipped without being encoded (its bytes stay zero): values whose encoding is not all-zero (boolean false = 2, -0.0) are altered", true)
+		// the loop runs to the end of the element list and the buffer keeps its d.len bytes: no break / return inside the
+		// loop, no re-slicing of the buffer field (a record whose buffer is shorter than its reported length makes the set
+		// length and the message length lie)
+		okWhole := true
+		whyWhole := ""
+		if encCall != nil {
+			if lh := loopHeadOf(encCall.Block()); lh != nil {
+				inL := func(b *ssa.BasicBlock) bool { return lh.Dominates(b) && reachableBlock(b, lh) }
+				for _, b := range f.Blocks {
+					if !inL(b) {
+						continue
+					}
+					for si, sc := range b.Succs {
+						if !inL(sc) && !(b == lh && si == 1) {
+							okWhole, whyWhole = false, "the element loop can be left before the last element (break / return at "+p.instrPos(b.Instrs[len(b.Instrs)-1])+")"
+						}
+					}
+				}
+			}
+		}
+		eachInstr(f, func(in ssa.Instruction) {
+			if st, ok := in.(*ssa.Store); ok {
+				if _, fn, _, ok := fieldOf(st.Addr); ok && fn == "buffer" {
+					if _, isMake := stripChange(st.Val).(*ssa.MakeSlice); !isMake {
+						okWhole, whyWhole = false, "the record buffer is re-assigned to something other than make([]byte, d.len) at "+p.instrPos(in)
+					}
+				}
+			}
+		})
+		r.Check(okWhole, rule, fnKey(f)+": the whole element list is serialized into a buffer of d.len bytes", p.pos(f.Pos()), "no early exit from the element loop, buffer only ever make([]byte, d.len)",
+			whyWhole+": GetBuffer() is then shorter than GetRecordLength(), so the set / message length fields no longer equal the bytes serialized", true)
 		r.Check(okMake && okAdv && okEvery, rule, fnKey(f)+": buffer of d.len bytes, index advanced by GetLength()", p.pos(f.Pos()), "sizing uses the accumulated length; every iteration (also after an encode error) advances the index by the element's GetLength()",
 			"the record buffer is not sized by the accumulated length, or an iteration can continue without advancing the write index by the element's GetLength(): the following fields are written at the wrong offsets", true)
 	}
@@ -465,5 +497,165 @@ func runC15(p *Prog, r *Report, tier string) {
 	prefixSites(p, r, "R-CODEC.prefix")
 	// the decoder consumes what the encoder wrote: no record of the set body is skipped
 	checkRecordLoopExits(p, r, "R-CODEC.record-loop")
+	// the decoder's consumption agrees with what the encoder wrote, field by field (C01's reader rule)
+	checkFieldBytes(p, r, "R-CODEC")
+	checkValueSettersFresh(p, r, "R-CODEC.setter-fresh")
+	// the length an element reports comes from its InfoElement: nobody rewrites a (shared, registry-owned) InfoElement
+	checkInfoElementImmutable(p, r, "R-OWNER.info-element")
 	lengthAccounting(p, r, "R-CODEC.length")
+}
+
+// checkValueSettersFresh: the byte-slice values of elements (IP, MAC, octet array) are handed out by reference
+// (GetIPAddressValue, GetElementMap, query results). A setter therefore REPLACES the slice; writing the new bytes into
+// the old backing array (append(old[:0], ...), copy(old, ...)) changes values other holders are still reading.
+func checkValueSettersFresh(p *Prog, r *Report, rule string) {
+	n := 0
+	for _, f := range p.RepoFns {
+		if !keyInPkg(fnKey(f), "pkg/entities") || !strings.HasPrefix(f.Name(), "Set") || !isValueAccessor(f.Name()) {
+			continue
+		}
+		eachInstr(f, func(in ssa.Instruction) {
+			switch x := in.(type) {
+			case *ssa.Store:
+				_, fn, _, ok := fieldOf(x.Addr)
+				if !ok || fn != "value" {
+					return
+				}
+				if _, isSlice := x.Val.Type().Underlying().(*types.Slice); !isSlice {
+					return
+				}
+				n++
+				reuse := false
+				seen := map[ssa.Value]bool{}
+				var walk func(v ssa.Value)
+				walk = func(v ssa.Value) {
+					v = stripChange(v)
+					if v == nil || seen[v] {
+						return
+					}
+					seen[v] = true
+					switch y := v.(type) {
+					case *ssa.Phi:
+						for _, e := range y.Edges {
+							walk(e)
+						}
+					case *ssa.Slice:
+						walk(y.X)
+					case *ssa.Call:
+						if b, ok := y.Call.Value.(*ssa.Builtin); ok && b.Name() == "append" {
+							walk(y.Call.Args[0])
+						}
+					case *ssa.UnOp:
+						if _, fn2, _, ok := loadedField(y); ok && fn2 == "value" {
+							reuse = true
+						}
+					}
+				}
+				walk(x.Val)
+				r.Check(!reuse, rule, fnKey(f)+": the stored slice is not built on the previous value's array", p.instrPos(in), "value replaced, not overwritten in place",
+					"the setter writes the new bytes into the backing array of the previous value, which GetXxxValue / GetElementMap handed out by reference: a result obtained earlier (e.g. by a query) changes under its reader", true)
+			case *ssa.Call:
+				if b, ok := x.Call.Value.(*ssa.Builtin); ok && b.Name() == "copy" {
+					if _, fn2, _, ok := loadedField(stripChange(x.Call.Args[0])); ok && fn2 == "value" {
+						n++
+						r.Violation(rule, fnKey(f)+": copy into the previous value", p.instrPos(in), "the setter copies into the slice that earlier getters handed out by reference")
+					}
+				}
+			}
+		})
+	}
+	if n < 3 {
+		r.Undecided(rule, "anchor: setters of slice-valued elements", "pkg/entities/ie_value.go", fmt.Sprintf("found %d stores, expected the IP, MAC and octet-array setters", n))
+	}
+}
+
+// checkTemplateElementsEmpty: a template is built by decoding every element with a nil value
+// (MakeTemplateSet -> DecodeAndCreateInfoElementWithValue(ie, nil)) and a template record refuses elements whose
+// IsValueEmpty() is false. For the slice-valued element types IsValueEmpty is `value == nil`, so on the decoder's
+// nil-input path their constructors must be given nil itself (an empty non-nil slice is "non-empty"): otherwise every
+// template containing such an element can be sent once but never rebuilt - the UDP refresh fails and closes the exporter.
+func checkTemplateElementsEmpty(p *Prog, r *Report, rule string) {
+	dec := p.Fn("pkg/entities.DecodeAndCreateInfoElementWithValue")
+	if dec == nil || len(dec.Params) < 2 {
+		r.Undecided(rule, "anchor: element decoder", "pkg/entities/ie.go", "not found")
+		return
+	}
+	val := ssa.Value(dec.Params[1])
+	// element types whose emptiness test is a nil comparison
+	nilTested := map[string]bool{}
+	for _, f := range p.RepoFns {
+		if f.Name() != "IsValueEmpty" || !keyInPkg(fnKey(f), "pkg/entities") {
+			continue
+		}
+		eachInstr(f, func(in ssa.Instruction) {
+			if b, ok := in.(*ssa.BinOp); ok && b.Op == token.EQL {
+				if c, ok := b.Y.(*ssa.Const); ok && c.IsNil() {
+					if tn, fn, _, ok := loadedField(b.X); ok && fn == "value" {
+						nilTested[tn] = true
+					}
+				}
+			}
+		})
+	}
+	knownNil := func(b *ssa.BasicBlock) (isNil, known bool) {
+		for _, fct := range blockFacts(b) {
+			if fct.X == val {
+				if c, ok := fct.Y.(*ssa.Const); ok && c.IsNil() {
+					if fct.Op == token.EQL {
+						return true, true
+					}
+					if fct.Op == token.NEQ {
+						return false, true
+					}
+				}
+			}
+		}
+		return false, false
+	}
+	n := 0
+	eachInstr(dec, func(in ssa.Instruction) {
+		c, ok := in.(*ssa.Call)
+		if !ok || c.Call.StaticCallee() == nil || len(c.Call.Args) != 2 {
+			return
+		}
+		ctor := c.Call.StaticCallee()
+		if !strings.HasPrefix(ctor.Name(), "New") || !strings.HasSuffix(ctor.Name(), "InfoElement") {
+			return
+		}
+		if _, isSlice := c.Call.Args[1].Type().Underlying().(*types.Slice); !isSlice {
+			return
+		}
+		// result type's element struct
+		tn := ""
+		if ptr, ok := ctor.Signature.Results().At(0).Type().(*types.Pointer); ok {
+			tn = typeName(ptr)
+		}
+		if !nilTested[tn] {
+			return
+		}
+		n++
+		bad := ""
+		check := func(v ssa.Value, blk *ssa.BasicBlock) {
+			isNil, known := knownNil(blk)
+			if known && !isNil {
+				return // value present: a copy of it is what we want
+			}
+			if cst, ok := v.(*ssa.Const); ok && cst.IsNil() {
+				return
+			}
+			bad = "on the path where the input is nil (or not known to be non-nil) the constructor gets a non-nil slice"
+		}
+		if ph, ok := c.Call.Args[1].(*ssa.Phi); ok {
+			for i, e := range ph.Edges {
+				check(e, ph.Block().Preds[i])
+			}
+		} else {
+			check(c.Call.Args[1], in.Block())
+		}
+		r.Check(bad == "", rule, fmt.Sprintf("%s: %s receives nil when the input value is nil", fnKey(dec), ctor.Name()), p.instrPos(in), "nil stays nil, so IsValueEmpty() holds for template elements",
+			bad+": IsValueEmpty() (value == nil) is false for the element of a template, AddInfoElement refuses it, and MakeTemplateSet - hence the UDP template refresh - fails for every template containing such an element", true)
+	})
+	if n < 3 {
+		r.Undecided(rule, "anchor: slice-valued constructors in the element decoder", p.pos(dec.Pos()), fmt.Sprintf("found %d, expected octet array, MAC and IP", n))
+	}
 }
